@@ -72,12 +72,12 @@ PROPS = {
     ),
     'C14': dict(
         standin_ops=['order.script', 'dom.order_keys', 'dom.keys_after_edits', 'dom.preorder_after_edits'],
-        verus_units=['c14_order', 'c13_tree', 'c14_init'],
+        verus_units=['c14_order', 'c13_tree', 'c14_init', 'c14_subtree'],
         level='proof',
         trusted_base=TRUSTED_VERUS,
         assumptions=[A2 + ' (Iterator::position over Weak::upgrade as "first index whose live id matches"; Rc::downgrade)', A4, A5, A6 + '; `version += 1` gets the precondition version < usize::MAX (2^64 edits)', A8],
-        not_decided='the recursive renumbering primitives XmlItem::{place_subtree_after, place_subtree_before, place_descendants, sub_items, last_descendant_or_self_id} (they walk the live subtree: assumed callees with the contract "the item and everything below it get consecutive keys next to the anchor", exercised by the edit-history replay grids only); the equivalence of queries on an edited document with queries on its re-parse (evaluator + parser)',
-        explanation='the DocumentOrder layer: get/push/remove/insert_after/insert_before of info/src/lib.rs verified against a sequence-of-live-ids view with the data-structure invariant "no live id twice": the key of a node is 1 + its first index (0 when absent), so keys of present nodes are non-zero and pairwise distinct (lemma), push appends without moving any other key, remove deletes exactly one entry, insert_after/insert_before place the node directly next to the reference node, and a refused call changes nothing; on top of it (unit c13_tree) the callers choose the right neighbour: append numbers the whole inserted subtree after the LAST DESCENDANT of the parent, insert_before before the reference child, append_attribute after the last attribute and before the children, and last_child_or_self_id of elements and documents answers the last item of the subtree; the initial numbering (unit c14_init: init_order_recursive of elements, documents and attributes, induction by contract over the recursion) appends exactly the subtree in the order element, namespace declarations, attributes, children',
+        not_decided='the link between the units is by restated contracts (c13_tree uses, as the contract of value.place_subtree_after/_before, exactly what c14_subtree proves; c14_subtree uses for set_after/set_before the id-sequence reading of what c14_order proves about DocumentOrder::insert_after/_before): each restatement is by hand; that the order vector and the subtree have unique ids is a hypothesis of the placement clauses (an invariant of DocumentOrder.wf and of a tree, not re-proved per edit); the equivalence of queries on an edited document with queries on its re-parse (evaluator + parser)',
+        explanation='the DocumentOrder layer: get/push/remove/insert_after/insert_before of info/src/lib.rs verified against a sequence-of-live-ids view with the data-structure invariant "no live id twice": the key of a node is 1 + its first index (0 when absent), so keys of present nodes are non-zero and pairwise distinct (lemma), push appends without moving any other key, remove deletes exactly one entry, insert_after/insert_before place the node directly next to the reference node, and a refused call changes nothing; on top of it (unit c13_tree) the callers choose the right neighbour: append numbers the whole inserted subtree after the LAST DESCENDANT of the parent, insert_before before the reference child, append_attribute after the last attribute and before the children, and last_child_or_self_id of elements and documents answers the last item of the subtree; the subtree layer (unit c14_subtree, over a concrete recursive item tree): sub_items lists namespace declarations, other attributes, children in that order, last_descendant_or_self_id answers the last id of the pre-order list, place_descendants puts every id below an item, contiguously and in pre-order, directly after it, and place_subtree_after/_before put the whole subtree next to the anchor -- by structural induction through the recursive call, with the sequence surgery proved as lemmas; the initial numbering (unit c14_init: init_order_recursive of elements, documents and attributes, induction by contract over the recursion) appends exactly the subtree in the order element, namespace declarations, attributes, children',
     ),
     'C19': dict(
         standin_ops=['xpath.query.ctx_reuse'],
@@ -212,7 +212,7 @@ MANIFEST_TEXT = {
         technique='contract-based deductive verification (Verus postconditions with explicit lexical-validity predicates on extracted real functions)',
         design_ref='DESIGN.md §9'),
     'C14': dict(
-        level_text='Proof (Verus, unbounded: all order vectors, ids, dead entries) for the DocumentOrder layer only: keys are 1 + first index of the live id, non-zero and pairwise distinct for present nodes; push/remove/insert_after/insert_before edit the id sequence exactly as specified, keep ids unique, and leave it unchanged when they refuse. On top of it, the tree-mutator defaults and the element/document anchors are proved to number an inserted subtree at its pre-order position, given the recursive renumbering primitive as an assumed callee. Query equivalence with a re-parse is not decided.',
+        level_text='Proof (Verus, unbounded: all order vectors, ids, dead entries) for the DocumentOrder layer only: keys are 1 + first index of the live id, non-zero and pairwise distinct for present nodes; push/remove/insert_after/insert_before edit the id sequence exactly as specified, keep ids unique, and leave it unchanged when they refuse. On top of it, the tree-mutator defaults and the element/document anchors are proved to number an inserted subtree at its pre-order position, and the recursive renumbering primitives (XmlItem::sub_items, last_descendant_or_self_id, place_descendants, place_subtree_after/_before) are proved over a concrete recursive item tree to place the whole subtree contiguously, in pre-order, next to the anchor. Query equivalence with a re-parse is not decided.',
         level_note='Trusted: Verus+Z3, extractor, Weak/Rc as opaque handles with a ghost live id (A5), std Iterator::position contract; seven induction lemmas about first-index are proved in the unit. Not decided: every caller that chooses where a node is inserted.',
         technique='contract-based deductive verification (Verus pre/postconditions over an abstract id sequence with a data-structure invariant, lemmas by induction)',
         design_ref='DESIGN.md §9'),
